@@ -2,25 +2,33 @@ package main
 
 import (
 	"fmt"
+	"strings"
+
+	sdk "github.com/cosmos/cosmos-sdk/types"
 
 	"verifharness/chain"
 	"verifharness/run"
 	_ "verifharness/scen"
 )
 
+type probe struct{ n int }
+
+func (p *probe) AfterCommit(w *chain.World, blk *chain.BlockRecord) {
+	if blk.Height < 36 || blk.Height > 62 || len(blk.Txs) < 2 || len(blk.Txs) > 6 {
+		return
+	}
+	ctx := w.ReadCtx()
+	pool, _ := w.App.AmmKeeper.GetPool(ctx, 1)
+	tr := w.App.BankKeeper.GetAllBalances(ctx, sdk.MustAccAddressFromBech32(pool.RebalanceTreasury))
+	fmt.Printf("h=%d pool1 %v treasury %v\n", blk.Height, pool.PoolAssets[0].Token.String()+" "+pool.PoolAssets[1].Token.String(), tr)
+	for _, t := range blk.Txs[1:] {
+		fmt.Printf("   tx %s ok=%v %.260s | %.120s\n", t.MsgType(), t.OK(), fmt.Sprint(t.Msgs), strings.SplitN(t.Result.Log, "\n", 2)[0])
+	}
+}
+
 func main() {
-	j := run.Job{Prop: "C09", Scenario: "mix", Index: 4, Seed: 1, Tier: "quick"}
-	var W *chain.World
-	run.AttachHook = func(w *chain.World) { W = w }
+	j := run.Job{Prop: "C04", Scenario: "swap-batch", Index: 0, Seed: 1, Tier: "quick"}
+	run.AttachHook = func(w *chain.World) { w.AddProbe(&probe{}) }
 	r := run.RunJob(j)
-	ctx := W.ReadCtx()
-	n := map[uint64]int{}
-	for _, m := range W.App.PerpetualKeeper.GetAllMTPs(ctx) {
-		n[m.AmmPoolId]++
-	}
-	l := map[uint64]int{}
-	for _, p := range W.App.LeveragelpKeeper.GetAllPositions(ctx) {
-		l[p.AmmPoolId]++
-	}
-	fmt.Println("mtps per pool", n, "lev positions per pool", l, "market pool", W.ElysMarketPool, r.NViolations)
+	fmt.Println(r.NViolations)
 }
